@@ -68,6 +68,11 @@ def main():
         data = bytes([b0, b1]) + pattern(b0 * b1, 13)
         jobs.append({"tool": "maxtoppm", "args": ["-newsroom"], "data": data, "fmt": "MAX", "w": 0, "h": 0, "skip": 0, "newsroom": True, "hdr0": b0, "hdr1": b1,
                      "what": "-newsroom %dx%d" % (b0 * 8, b1), "noskip": None, "io": b0 == 5})
+    # -newsroom together with -s: the two options are independent (the preamble is skipped, then the two-byte header is read)
+    for b0, b1, sk in ((5, 30, 7), (2, 3, 1), (32, 20, 128)):
+        data = pattern(sk, 5) + bytes([b0, b1]) + pattern(b0 * b1, 13)
+        jobs.append({"tool": "maxtoppm", "args": ["-newsroom", "-s", str(sk)], "data": data, "fmt": "MAX", "w": 0, "h": 0, "skip": sk, "newsroom": True, "hdr0": b0, "hdr1": b1,
+                     "what": "-newsroom -s %d %dx%d" % (sk, b0 * 8, b1), "noskip": (["-newsroom"], data[sk:]), "io": b0 == 5})
     for side in (range(2, 130, 2) if thorough else list(range(2, 34, 2)) + [64, 100, 128]):
         data = pattern(side * side // 2, 3)
         jobs.append({"tool": "pixtopgm", "args": [], "data": data, "fmt": "PIX", "w": side, "h": side, "skip": 0, "what": "side %d" % side, "noskip": None, "io": side in (2, 64)})
